@@ -14,7 +14,7 @@ RULE = ("one evaluation = one injected stanza into a full protocol stack (bottom
 ASSUMPTIONS = ["a picture notification that is neither set nor delete is rejected by design and not generated",
                "the key upload that an encrypt-count notification triggers is not answered here; only acknowledgements are counted",
                "kinds x selections are enumerated completely, values are sampled"]
-REQUIRED = ["injected", "answers_ok", "kind:notification", "kind:call", "kind:ping", "kind:message", "selections", "with_participant", "unknown_types"]
+REQUIRED = ["redelivered_at_once", "redelivered_later", "injected", "answers_ok", "kind:notification", "kind:call", "kind:ping", "kind:message", "selections", "with_participant", "unknown_types"]
 TIMEOUT = {"quick": 600, "thorough": 7200}
 
 S = "s.whatsapp.net"
@@ -108,8 +108,33 @@ def answers(kit, tags):
     return [treeeq.to_tuple(n) for n in kit.bottom.sent if getattr(n, "tag", None) in tags]
 
 
-def judge(acc, kit, name, stanza, want, w):
+_RING = []
+
+
+def judge(acc, kit, name, stanza, want, w, redelivery=None):
     """want: dict(tag=..., n=1, attrs={...required attrs...}, absent=[attrs that must not be there], child=(tag, attrs)|None)"""
+    if redelivery is None:
+        _judge(acc, kit, name, stanza, want, w)
+        # The server delivers a stanza again when it has not seen the answer (lost with a connection, say): the second delivery
+        # is answered like the first. Every 5th stanza comes again at once, and one from a while ago (2, 9 or 70 stanzas back)
+        # comes again every 7th time.
+        _RING.append((kit, name, stanza, want, w))
+        del _RING[:-80]
+        n = acc.counters.get("injected", 0)
+        if n % 5 == 0:
+            acc.count("redelivered_at_once")
+            _judge(acc, kit, name, stanza, want, dict(w, redelivered="at once"))
+        if n % 7 == 0:
+            back = [2, 9, 70][(n // 7) % 3]
+            if len(_RING) > back and _RING[-1 - back][0] is kit:
+                k2, n2, s2, w2, ww2 = _RING[-1 - back]
+                acc.count("redelivered_later")
+                _judge(acc, kit, n2, s2, w2, dict(ww2, redelivered="%d stanzas later" % back))
+        return
+    _judge(acc, kit, name, stanza, want, w)
+
+
+def _judge(acc, kit, name, stanza, want, w):
     acc.count("injected")
     kit.clear()
     try:
@@ -121,8 +146,8 @@ def judge(acc, kit, name, stanza, want, w):
     got = answers(kit, tags)
     got = [g for g in got if want.get("filter", lambda g: True)(g)]
     if len(got) != 1:
-        acc.violation("answers:%s:%d" % (name, min(len(got), 2)), "an incoming %s was answered %d times (expected exactly one %s): %s"
-                      % (name, len(got), "/".join(tags), [treeeq.describe(g, 3) for g in got][:3]), w)
+        acc.violation("answers:%s:%d" % (name, min(len(got), 2)), "an incoming %s%s was answered %d times (expected exactly one %s): %s"
+                      % (name, " (delivered again %s)" % w["redelivered"] if w.get("redelivered") else "", len(got), "/".join(tags), [treeeq.describe(g, 3) for g in got][:3]), w)
         return
     g = got[0]
     if g[0] != want["tag"]:
